@@ -112,6 +112,23 @@ CHECKS = {
               'NPV / levelized costs vs ~25 cost inputs and factors.'),
         design_ref='DESIGN.md section 4 C18',
         note='Clause (b) with redrilling disabled; levelized-cost clause only where yearly energy is positive.'),
+    'C17': dict(
+        engine='xplore',
+        technique='bounded exhaustive exploration of the real HIP-RA-X calculator: all single and pairwise deviations over alphabets discovered from the live parameter dictionary, with scaling relations as run pairs',
+        category='exploration',
+        text=('Volumetric identities, additivity of stored heat and the ordering of the heat cascade on every accepted point; exact homogeneity in '
+              'area and thickness (k in {0.5,2,10}) with per-area / per-volume / percentage / specific outputs invariant.'),
+        design_ref='DESIGN.md section 4 C17',
+        note='Unit-spelling variants are exercised by the C06 machinery.'),
+    'C19': dict(
+        engine='xplore',
+        technique='explicit-state reachability of the configuration-selection machine (complete product of selector values on the real Model constructor and reader) followed by complete set comparison with the real generator output and enforcement probes',
+        category='exploration',
+        text=('10368 real constructions -> reachable module-class tuples (states) -> union of accepted parameters; set equality with the generated '
+              'request schema; type/default/unit/bounds for identically defined parameters; committed vs generated artefacts; schema bounds probed '
+              'through the real reader; every result-schema field extracted from some stored or generated report.'),
+        design_ref='DESIGN.md section 4 C19',
+        note='Seven deliberately redefined parameters excluded from the bound/default clause as the property says (listed in evidence).'),
 }
 
 
@@ -142,7 +159,7 @@ def manifest():
             'enable': 'checks export GEOPHIRES_X_VERIF=1 (bin/check) and import /repo/src directly; no build step',
             'baseline_off_cmd': BASELINE,
             'source_commits': ['b900803'],
-            'fix_commits': ['83ef652', '14ba6d3', '02fd4ac', 'a169dc6'],
+            'fix_commits': ['83ef652', '14ba6d3', '02fd4ac', 'a169dc6', '7ac55fd'],
             'add_only': True,
         },
         'engines': [
